@@ -67,6 +67,25 @@ class Tree:
         self.items[os.path.normpath(path)] = ('link', target)
 
 
+def target_files(rule: T.Dict[str, T.Any]) -> T.Tuple[str, T.List[T.Tuple[str, str, str]]]:
+    """File name of a compiled target and its alias links (alias, points to, predefined tag)."""
+    n = rule['name']
+    if rule['ttype'] == 'exe':
+        return n, []
+    if rule['ttype'] == 'stlib':
+        return f'lib{n}.a', []
+    ver, sov = rule.get('version'), rule.get('soversion')
+    if ver and not sov:
+        sov = ver.split('.')[0]
+    if not sov:
+        return f'lib{n}.so', []
+    if ver and ver != sov:
+        real = f'lib{n}.so.{ver}'
+        return real, [(f'lib{n}.so.{sov}', real, 'runtime'), (f'lib{n}.so', f'lib{n}.so.{sov}', 'devel')]
+    real = f'lib{n}.so.{sov}'
+    return real, [(f'lib{n}.so', real, 'devel')]
+
+
 def dest_join(destdir: str, path: str) -> str:
     return os.path.normpath(destdir + '/' + path.lstrip('/'))
 
@@ -103,7 +122,7 @@ def expected_tree(spec: T.Dict[str, T.Any], destdir: str, opts: T.Dict[str, T.An
         return (0o777 if srcexec else 0o666) & ~umask
 
     # order of the installer: subdirs, (targets), headers, man, emptydir, data, symlinks
-    order = {'subdir': 0, 'ctarget': 1, 'headers': 2, 'man': 3, 'emptydir': 4, 'data': 5, 'symlink': 6}
+    order = {'subdir': 0, 'ctarget': 1, 'target': 1, 'headers': 2, 'man': 3, 'emptydir': 4, 'data': 5, 'symlink': 6}
     for rule in sorted(spec['rules'], key=lambda r: order[r['kind']]):
         k = rule['kind']
         if k == 'data':
@@ -123,6 +142,20 @@ def expected_tree(spec: T.Dict[str, T.Any], destdir: str, opts: T.Dict[str, T.An
             dst = os.path.join(resolve(rule['dir']), rule['name'])
             t.add_parents(os.path.dirname(dst), dirmode, destdir)
             t.add_file(dst, fmode(rule.get('exec', False), rule.get('mode')), sha(content_of('ctarget:' + rule['name'])))
+        elif k == 'target':
+            # a compiled build target (executable / shared library / static library) with install: true
+            fname, aliases = target_files(rule)
+            d = rule['dir'] if rule.get('dir') is not None else ('bin' if rule['ttype'] == 'exe' else 'lib')
+            main_tag = rule.get('tag') or ('devel' if rule['ttype'] == 'stlib' else 'runtime')
+            dst = os.path.join(resolve(d), fname)
+            if wanted(rule, main_tag):
+                t.add_parents(os.path.dirname(dst), dirmode, destdir)
+                t.add_file(dst, fmode(rule['ttype'] != 'stlib', rule.get('mode')), 'TARGET:' + fname)
+            for alias, to, default_tag in aliases:
+                if wanted(rule, rule.get('tag') or default_tag):
+                    adst = os.path.join(resolve(d), alias)
+                    t.add_parents(os.path.dirname(adst), dirmode, destdir)
+                    t.add_link(adst, to)
         elif k == 'headers':
             if not wanted(rule, 'devel'):
                 continue
